@@ -7,7 +7,7 @@ CHECKED_FLAGS = []
 
 PARALLEL = {"quick": 6, "thorough": 3}
 MEM_GB = {"quick": 8, "thorough": 16}
-TIMEOUT_S = {"quick": 900, "thorough": 3600}
+TIMEOUT_S = {"quick": 1800, "thorough": 5400}
 
 ASSUMPTIONS = [
     "trusted: rustc + Kani 0.68 MIR->goto translation, CBMC 6.11, CaDiCaL",
@@ -126,16 +126,24 @@ H("c08_plm_new_reverse_2nodes", "C08", "fontdrasil", "piecewise_linear_map", fun
 for _n, _shape in [("c08_conv_2nodes_default_min", "[0,1] default 0"), ("c08_conv_2nodes_default_max", "[20,90] default 1"),
                    ("c08_conv_3nodes_default_mid", "[100,400,900] default 1"), ("c08_conv_3nodes_default_first", "[100,400,900] default 0"),
                    ("c08_conv_3nodes_default_last", "[-0.5,12.25,100] default 2"), ("c08_conv_3nodes_flat_segment", "[20,20,90] default 0"),
-                   ("c08_conv_4nodes_default_inner", "[-0.5,0,12.25,100] default 2"), ("c08_conv_1node", "[5] default 0")]:
-    H(_n, "C08", "fontdrasil", "coords", tier=("quick" if _n in ("c08_conv_2nodes_default_min", "c08_conv_3nodes_default_mid") else "thorough"), funcs=[C + "::CoordConverter::new", C + "::ConvertSpace impls (user/design/normalized)", P + "::PiecewiseLinearMap::{new,reverse,map}"],
+                   ("c08_conv_4nodes_default_inner", "[-0.5,0,12.25,100] default 2"), ("c08_conv_1node", "[5] default 0"),
+                   ("c08_conv_3nodes_listed_default_first", "[100,400,900] default 400, listed 400,100,900"),
+                   ("c08_conv_3nodes_listed_descending", "[-0.5,12.25,100] default -0.5, listed 100,12.25,-0.5")]:
+    H(_n, "C08", "fontdrasil", "coords", tier=("quick" if _n in ("c08_conv_2nodes_default_min", "c08_conv_3nodes_listed_default_first") else "thorough"), funcs=[C + "::CoordConverter::new", C + "::ConvertSpace impls (user/design/normalized)", P + "::PiecewiseLinearMap::{new,reverse,map}"],
       bound="design shape " + _shape + " concrete; user values strictly increasing + probe symbolic on the k/4 grid in [-2,2]",
       oracle="user node -> its design value; node normalization == reference design normalization (default 0, design min -1, design max +1); in-range probe normalizes within the node hull; 0 denormalizes to the default")
 H("c08_conv_user_design_roundtrip_nodes", "C08", "fontdrasil", "coords", tier="thorough", funcs=[C + "::CoordConverter::new", C + "::ConvertSpace impls"],
-  bound="design [100,400,900] default 1; 3 symbolic user nodes on the k/4 grid", oracle="user->design->user and design->user at nodes; -1/+1 denormalize to user extremes; default index out of bounds is Err")
-H("c08_default_normalization", "C08", "fontdrasil", "coords", tier="thorough", funcs=[C + "::CoordConverter::default_normalization", C + "::CoordConverter::new"],
-  bound="min<=default<=max and probe symbolic on the k/4 grid (all coincidence cases)", oracle="default->0, min->-1 (if < default), max->+1 (if > default), in-range probe in [-1,1] with the sign of (x-default)")
-H("c08_unmapped", "C08", "fontdrasil", "coords", tier="thorough", funcs=[C + "::CoordConverter::unmapped", C + "::CoordConverter::new"],
-  bound="min<=default<=max symbolic on the k/4 grid", oracle="identity at default; default->0, min->-1, max->+1")
+  bound="design [100,400,900] default 1; 3 symbolic user nodes on the k/4 grid, symbolic node index", oracle="user->design->user returns the node")
+H("c08_conv_denormalize_extremes", "C08", "fontdrasil", "coords", tier="thorough", funcs=[C + "::CoordConverter::new", C + "::ConvertSpace impls"],
+  bound="design [100,400,900] default 1; 3 symbolic user nodes; normalized -1/0/+1", oracle="-1/0/+1 denormalize to user min/default/max; default index out of bounds is Err")
+for _n, _t, _q in [("c08_default_normalization_3distinct", "(300,400,700)", "quick"), ("c08_default_normalization_default_at_min", "(0,0,1)", "thorough"),
+                   ("c08_default_normalization_default_at_max", "(-12.5,1000,1000)", "thorough"), ("c08_default_normalization_point_axis", "(5,5,5)", "quick")]:
+    H(_n, "C08", "fontdrasil", "coords", tier=_q, funcs=[C + "::CoordConverter::default_normalization", C + "::CoordConverter::new", "fontdrasil/src/types.rs::Axis::default_converter (delegates)"],
+      bound="concrete (min,default,max) = " + _t + "; probe symbolic on the quarter-step grid in [-1050,1050]",
+      oracle="default->0, min->-1 (if < default), max->+1 (if > default); in-range probe in [-1,1] with the sign of (x-default)")
+for _n, _t, _q in [("c08_unmapped_3distinct", "(100,400,900)", "quick"), ("c08_unmapped_default_at_max", "(0,1,1)", "thorough")]:
+    H(_n, "C08", "fontdrasil", "coords", tier=_q, funcs=[C + "::CoordConverter::unmapped", C + "::CoordConverter::new"],
+      bound="concrete (min,default,max) = " + _t + "; probe symbolic on the quarter-step grid", oracle="identity user->design inside the range; default->0, min->-1, max->+1")
 H("c08_f2dot14_exact_on_grid", "C08", "fontdrasil", "coords", funcs=[C + "::Coord<NormalizedSpace>::to_f2dot14"],
   bound="k/4 grid in [-1,1]", oracle="2.14 conversion exact")
 
@@ -159,7 +167,11 @@ for _a, _b in [(1, 1), (1, 2), (2, 1), (2, 2), (0, 1), (2, 0)]:
       funcs=[F + "::Rank::{bitor,bitor_assign,eq,is_all_zeros,first_bit_is_set,right_shift_one}"],
       bound="rank word counts %d and %d concrete, all bits symbolic" % (_a, _b), oracle="agrees with u128 arithmetic")
 H("c16_rank_new_is_single_bit", "C16", "fontir", "feature_variations", funcs=[F + "::Rank::new"], bound="rule index 0..127", oracle="value == 1 << i")
-H("c16_overlay_whole_2rules_1axis", "C16", "fontir-c4", "feature_variations", tier="thorough", mem_gb=30, timeout=7200,
+H("c16_merge_same_region_precedence", "C16", "fontir", "feature_variations", tier="never", funcs=[F + "::merge_same_region_rules", F + "::Region::cleanup_and_normalize", F + "::NBox::cleanup"],
+  bound="2 rules, one 1-axis box each with symbolic bounds on the k/4 grid, both substituting glyph a", oracle="equal regions merge with the earlier rule's replacement; different regions stay apart in rule order")
+H("c16_merge_same_sub_rules", "C16", "fontir", "feature_variations", tier="never", funcs=[F + "::merge_same_sub_rules"],
+  bound="2 rules with symbolic 1-axis boxes; identical or different substitutions (symbolic choice)", oracle="identical substitutions merge into one rule with both boxes, first position kept; otherwise unchanged")
+H("c16_overlay_whole_2rules_1axis", "C16", "fontir-c4", "feature_variations", tier="never", mem_gb=30, timeout=7200,
   funcs=[F + "::overlay_feature_variations", F + "::merge_same_sub_rules", F + "::merge_same_region_rules", F + "::NBox::overlay_onto", F + "::Rank::*"],
   bound="2 rules, one box each on one axis, bounds on the k/4 grid, probe strictly between grid lines; container capacity 4; unwind 6",
   oracle="first output box containing the probe carries exactly the substitutions of the rules containing the probe, in rule order")
